@@ -212,7 +212,9 @@ fn main() {
         let segs = [s0, s1, s2];
         let total = hop_count(segs) as u8;
         let chs: Vec<u8> = if thorough { (0..64).collect() } else { (0..=total).chain([63]).collect() };
-        for ch in chs { for ci in 0..4u8 {
+        let ni = info_count(segs) as u8;
+        let cis: Vec<u8> = if tier == "thorough" { (0..4).collect() } else { let mut v = vec![0u8, ni.saturating_sub(1), ni.min(3), 3]; v.sort(); v.dedup(); v };
+        for ch in chs { for &ci in &cis {
             let canon = rng.chance(3, 4);
             let p = raw_path(&mut rng, ci, ch, segs, canon);
             let b = p.bytes();
